@@ -148,7 +148,13 @@ func (cs *ContractSet) loadContractFile(path string, defaultPkg string) error {
 					rest = "(" + rest[:i] + ")" + rest[i:]
 				}
 				cur.Func = rest
-				cs.ByFunc[pkg+"::"+rest] = cur
+				// A function may have a "trusted" block (what its callers assume, e.g. ghost bookkeeping) next to a
+				// "func" block (what is proved about its body): call sites use the trusted one.
+				if prev := cs.ByFunc[pkg+"::"+rest]; prev != nil && prev.Kind == "trusted" && kind == "func" {
+					// keep prev for call sites
+				} else {
+					cs.ByFunc[pkg+"::"+rest] = cur
+				}
 			case "spec":
 				// spec name(a T, b U) R = expr   (expr may continue on //@ lines)
 				if err := parseSpecHeader(cur, rest); err != nil {
@@ -276,7 +282,7 @@ func (cs *ContractSet) finish() error {
 					return fmt.Errorf("%s:%d: %v in %q", cl.File, cl.Line, err, cl.Text)
 				}
 				cl.Expr = e
-			case "assigns", "loop-assigns":
+			case "assigns", "loop-assigns", "preserves":
 				if strings.TrimSpace(cl.Text) == "nothing" {
 					continue
 				}
@@ -304,6 +310,18 @@ func (cs *ContractSet) finish() error {
 					cl.Name = f[0]
 					cl.Text = f[1]
 				}
+			case "atcall":
+				// atcall NAME: expr
+				i := strings.Index(cl.Text, ":")
+				if i < 0 {
+					return fmt.Errorf("%s:%d: atcall needs NAME: expr", cl.File, cl.Line)
+				}
+				cl.Name = strings.TrimSpace(cl.Text[:i])
+				e, err := parseExpr(cl.Text[i+1:])
+				if err != nil {
+					return fmt.Errorf("%s:%d: %v in %q", cl.File, cl.Line, err, cl.Text)
+				}
+				cl.Expr = e
 			case "loop-unroll":
 			default:
 			}
